@@ -617,6 +617,153 @@ fn main() {
             }
             println!("RESULT enum:stream-chunks {cases} chunked decodes agree with buffer decoding");
         }
+        // ---- C11 enumerator (first sentence): for accepted texts in many legal spellings, and the corpus files shipped with the
+        //      repository, decode -> encode -> decode gives the first decode and the second encoding equals the first; exit 3 otherwise
+        "enum:reencode-stable" => {
+            use libhaystack::encoding::zinc::encode::ToZinc;
+            let repo = std::env::var("VX_REPO").unwrap_or_else(|_| "/repo".to_string());
+            let mut zinc_texts: Vec<String> = [
+                "1.0", "1e3", "1E3", "1e+3", "10_000", "-0", "-0.0", "0.10", "1.50kg", "5.4e-45", "9223372036854775808", "-9223372036854775809",
+                "1e300", "123456789012345678901234567890", "1.7976931348623157e308", "4.9e-324", "100%", "-3.5$", "1e3kW", "INF", "-INF", "NaN",
+                "\"a\\u0041\\u00e9\\$b\"", "\"\\b\\f\\n\\r\\t\\\\\\\"\"", "\"\\u20AC\\u20ac\"", "\"caf\u{e9} \u{1F600}\"",
+                "[1, 2,]", "[ 1 ,2 ]", "[]", "[ ]", "[[1],[\"a\",[M]]]", "[1,\n2]",
+                "{a b:1 c}", "{a, b:1, c}", "{a:M}", "{}", "{ }", "{a:{b:{c:1}}}", "{a:[1,{b}]}",
+                "2021-06-01T12:00:00Z", "2021-06-01T12:00:00Z UTC", "2021-06-01T12:00:00+00:00 UTC", "2021-06-01T12:00:00-04:00 New_York",
+                "2021-06-01T12:00:00.5-04:00 New_York", "2021-06-01T12:00:00.123456789+05:30 Kolkata", "2021-06-01T12:00:00+05:00 GMT-5",
+                "2021-06-01T12:00:00-02:30 St_Johns", "2021-06-01T12:00:00.000Z", "2021-06-01", "0001-01-01", "12:00:00", "12:00:00.000", "23:59:59.999999999", "12:00",
+                "@a", "@a \"dis\"", "@a.b:c-d~e \"d \\\"q\\\"\"", "^sym", "^a.b-c:d", "`http://x/y?z=1#f`", "`a\\`b`", "`a\\\\b`", "`a b`",
+                "C(1.50,-2.0)", "C(0,0)", "C(-90.0,180.0)", "C(1e1,2)", "Foo(\"bar\")", "Bin(\"text/plain\")", "Span(\"today\")", "T", "F", "M", "N", "NA", "R",
+                "ver:\"3.0\"\nempty\n", "ver:\"3.0\"\nempty\n\n", "ver:\"3.0\"\na\n1\n", "ver:\"3.0\"\r\na\r\n1\r\n", "ver:\"3.0\" x y:1\na z,b q:\"s\"\n1,2\n,\n3,\n,4\n",
+                "ver:\"2.0\"\na\n1\n", "ver:\"3.0\"\na,b\nN,N\n", "ver:\"3.0\"\na\n<<\nver:\"3.0\"\nb\n2\n>>\n", "ver:\"3.0\"\na\n[1,<<\nver:\"3.0\"\nb\n2\n>>]\n",
+                "ver:\"3.0\"\na\n{x:<<\nver:\"3.0\"\nb\n2\n>>}\n", "ver:\"3.0\" m:{a:[1]}\na\n\"x\"\n", "<<\nver:\"3.0\"\na\n1\n>>",
+            ].iter().map(|s| s.to_string()).collect();
+            let mut corpus = 0;
+            for f in ["benches/zinc/points.zinc", "tests/defs/defs.zinc"] {
+                if let Ok(t) = std::fs::read_to_string(format!("{repo}/{f}")) { zinc_texts.push(t); corpus += 1; }
+            }
+            let short = |s: &str| -> String { if s.len() > 300 { format!("{}... ({} bytes)", s.chars().take(300).collect::<String>(), s.len()) } else { s.to_string() } };
+            let (mut accepted, mut skipped) = (0, 0);
+            let mut skipped_texts: Vec<String> = vec![];
+            for t in &zinc_texts {
+                let v1 = match from_str(t) { Ok(v) => v, Err(_) => { skipped += 1; skipped_texts.push(short(t)); continue; } };
+                accepted += 1;
+                let e1 = match v1.to_zinc_string() { Ok(e) => e, Err(e) => {
+                    println!("RESULT enum:reencode-stable zinc text={:?} decodes but its value cannot be encoded: {e}", short(t)); std::process::exit(3); } };
+                let v2 = from_str(&e1);
+                let same = matches!(&v2, Ok(v2) if { let (a, b) = (format!("{:?}", norm(v2)), format!("{:?}", norm(&v1))); a == b && (norm(v2) == norm(&v1) || a.contains("NaN")) });
+                let e2 = v2.as_ref().ok().and_then(|v| v.to_zinc_string().ok());
+                if !same || e2.as_deref() != Some(e1.as_str()) {
+                    println!("RESULT enum:reencode-stable zinc text={:?} first decode={} re-encoded={:?} second decode={} second encoding={:?}",
+                        short(t), short(&format!("{v1:?}")), short(&e1), short(&format!("{v2:?}")), e2.as_deref().map(short));
+                    std::process::exit(3);
+                }
+            }
+            let mut docs: Vec<String> = [
+                r#"1"#, r#"1.0"#, r#"1e3"#, r#"-0.0"#, r#"0.1"#, r#"9223372036854775807"#, r#"9223372036854775808"#, r#"18446744073709551615"#, r#"-9223372036854775808"#,
+                r#"1e300"#, r#"1.7976931348623157e308"#, r#"5e-324"#, r#"123456789012345678901234567890"#, r#"9007199254740993"#,
+                r#"{"_kind":"number","val":1}"#, r#"{"_kind":"number","val":1.0,"unit":"kg"}"#, r#"{"val":"INF","_kind":"number"}"#, r#"{"_kind":"number","val":"-INF"}"#,
+                r#"{"_kind":"number","val":"NaN"}"#, r#"{"_kind":"number","val":1e19,"unit":"kW"}"#, r#"{"unit":"%","val":50,"_kind":"number"}"#,
+                r#""s""#, r#""caf\u00e9 \ud83d\ude00""#, r#"true"#, r#"null"#, r#"[]"#, r#"[1,[2,[3]],null]"#, r#"{}"#, r#"{"a":1,"b":{"c":[true]}}"#, r#"{"_kind":"dict","a":1}"#,
+                r#"{"_kind":"marker"}"#, r#"{"_kind":"remove"}"#, r#"{"_kind":"na"}"#, r#"{"_kind":"ref","val":"a"}"#, r#"{"_kind":"ref","val":"a","dis":"A"}"#,
+                r#"{"_kind":"symbol","val":"s"}"#, r#"{"_kind":"uri","val":"http://x"}"#, r#"{"_kind":"xstr","type":"Foo","val":"bar"}"#, r#"{"_kind":"coord","lat":1.5,"lng":-2}"#,
+                r#"{"_kind":"date","val":"2021-06-01"}"#, r#"{"_kind":"time","val":"12:00:00"}"#, r#"{"_kind":"time","val":"12:00:00.5"}"#,
+                r#"{"_kind":"dateTime","val":"2021-06-01T12:00:00Z"}"#, r#"{"_kind":"dateTime","val":"2021-06-01T12:00:00Z","tz":"UTC"}"#,
+                r#"{"_kind":"dateTime","val":"2021-06-01T12:00:00+00:00","tz":"UTC"}"#, r#"{"_kind":"dateTime","val":"2021-06-01T12:00:00-04:00","tz":"New_York"}"#,
+                r#"{"tz":"Kolkata","val":"2021-06-01T12:00:00.25+05:30","_kind":"dateTime"}"#, r#"{"_kind":"dateTime","val":"2021-06-01T12:00:00-02:30","tz":"St_Johns"}"#,
+                r#"{"_kind":"dateTime","val":"2021-06-01T12:00:00+05:00"}"#,
+                r#"{"_kind":"grid","meta":{"ver":"3.0"},"cols":[{"name":"empty"}],"rows":[]}"#,
+                r#"{"_kind":"grid","meta":{"ver":"3.0","x":{"_kind":"marker"}},"cols":[{"name":"a","meta":{"z":1}},{"name":"b"}],"rows":[{"a":1},{"b":"s"},{}]}"#,
+                r#"{"_kind":"grid","meta":{"ver":"2.0"},"cols":[{"name":"a"}],"rows":[{"a":{"_kind":"grid","meta":{"ver":"3.0"},"cols":[{"name":"b"}],"rows":[{"b":2}]}}]}"#,
+                r#"{"rows":[{"a":null}],"cols":[{"name":"a"}],"meta":{"ver":"3.0"},"_kind":"grid"}"#,
+            ].iter().map(|s| s.to_string()).collect();
+            if let Ok(t) = std::fs::read_to_string(format!("{repo}/benches/json/points.json")) { docs.push(t); corpus += 1; }
+            for t in &docs {
+                let v1 = match serde_json::from_str::<Value>(t) { Ok(v) => v, Err(_) => { skipped += 1; skipped_texts.push(short(t)); continue; } };
+                accepted += 1;
+                let e1 = match serde_json::to_string(&v1) { Ok(e) => e, Err(e) => {
+                    println!("RESULT enum:reencode-stable hayson document={:?} decodes but its value cannot be encoded: {e}", short(t)); std::process::exit(3); } };
+                let v2 = serde_json::from_str::<Value>(&e1);
+                let same = matches!(&v2, Ok(v2) if { let (a, b) = (format!("{:?}", norm(v2)), format!("{:?}", norm(&v1))); a == b && (norm(v2) == norm(&v1) || a.contains("NaN")) });
+                let e2 = v2.as_ref().ok().and_then(|v| serde_json::to_string(v).ok());
+                if !same || e2.as_deref() != Some(e1.as_str()) {
+                    println!("RESULT enum:reencode-stable hayson document={:?} first decode={} re-encoded={:?} second decode={} second encoding={:?}",
+                        short(t), short(&format!("{v1:?}")), short(&e1), short(&format!("{v2:?}")), e2.as_deref().map(short));
+                    std::process::exit(3);
+                }
+            }
+            println!("RESULT enum:reencode-stable {accepted} accepted texts ({corpus} corpus files) reach a fixed point after one re-encoding; {skipped} spellings not accepted and skipped: {skipped_texts:?}");
+        }
+        // ---- C11 enumerator (third sentence): a byte-counting reader under the lazy row iterator; when row i is handed out the stream
+        //      has been consumed no further than the end of the first token after that row (plus the two bytes of look-ahead a token end needs)
+        "enum:lazy-rows" => {
+            use libhaystack::encoding::zinc::decode::parse_grid_iterator;
+            use libhaystack::encoding::zinc::decode::parser::Parser;
+            use std::cell::Cell;
+            use std::rc::Rc;
+            struct Counting<'a> { data: &'a [u8], pos: usize, used: Rc<Cell<usize>> }
+            impl std::io::Read for Counting<'_> {
+                fn read(&mut self, buf: &mut [u8]) -> std::io::Result<usize> {
+                    let n = buf.len().min(self.data.len() - self.pos);
+                    buf[..n].copy_from_slice(&self.data[self.pos..self.pos + n]);
+                    self.pos += n; self.used.set(self.pos); Ok(n)
+                }
+            }
+            // first cell of a row = the first token after the previous row; the other cells make any further read-ahead visible
+            let firsts: [(&str, usize); 8] = [("@r", 2), ("12", 2), ("\"s\"", 3), ("M", 1), ("`u`", 3), ("", 1), ("[1,2]", 1), ("2021-06-01", 10)];
+            const SLACK: usize = 2;
+            let mut cases = 0;
+            for rows in [1usize, 2, 5] { for (first, tok_len) in firsts {
+                let mut text = String::from("ver:\"3.0\"\nid,dis,val\n");
+                let mut starts = vec![];
+                for i in 0..rows { starts.push(text.len()); text.push_str(&format!("{first},\"Row number {i} with a long description\",[1,2,{i}]\n")); }
+                let want = match from_str(&text) { Ok(Value::Grid(g)) => g.rows.clone(), other => { println!("RESULT enum:lazy-rows text={text:?} buffer decode={other:?}"); std::process::exit(3); } };
+                let used = Rc::new(Cell::new(0usize));
+                let mut rd = Counting { data: text.as_bytes(), pos: 0, used: used.clone() };
+                let mut parser = Parser::make(&mut rd).expect("parser");
+                let it = parse_grid_iterator(&mut parser).expect("grid header");
+                let mut n = 0;
+                for (i, row) in it.enumerate() {
+                    let bound = if i + 1 < rows { starts[i + 1] + tok_len + SLACK } else { text.len() };
+                    let got = used.get();
+                    cases += 1;
+                    match row { Ok(r) if r == want[i] => {}, other => { println!("RESULT enum:lazy-rows text={text:?} row {i}: lazy={other:?} buffer={:?}", want[i]); std::process::exit(3); } }
+                    if got > bound {
+                        println!("RESULT enum:lazy-rows text={text:?} row {i} handed out after {got} bytes; the first token after it ends at byte {} (read ahead: {:?})",
+                            bound - SLACK, &text[bound - SLACK..got]);
+                        std::process::exit(3);
+                    }
+                    n += 1;
+                }
+                if n != rows { println!("RESULT enum:lazy-rows text={text:?} lazy iterator gave {n} rows, buffer decode {rows}"); std::process::exit(3); }
+            } }
+            println!("RESULT enum:lazy-rows {cases} rows handed out having consumed no further than the first token after the row");
+        }
+        // ---- C04 enumerator (reader side): alternative legal spellings of one value -- number forms, escapes, separators, line
+        //      endings -- must all be accepted and denote the value of the plain spelling; exit 3 otherwise
+        "enum:zinc-spellings" => {
+            let pairs: [(&str, &str); 43] = [
+                ("1.0", "1"), ("1e3", "1000"), ("1E3", "1000"), ("1e+3", "1000"), ("10_000", "10000"), ("1_000.5", "1000.5"), ("5E-1", "0.5"), ("0.10", "0.1"),
+                ("1.50kg", "1.5kg"), ("-0.0", "-0"), ("1e3kW", "1000kW"), ("100%", "1e2%"),
+                ("\"\\u0041\"", "\"A\""), ("\"\\u00e9\"", "\"\u{e9}\""), ("\"\\u00E9\"", "\"\u{e9}\""), ("\"\\u20ac\"", "\"\u{20ac}\""), ("\"a\\tb\"", "\"a\\u0009b\""), ("\"\\b\\f\"", "\"\\u0008\\u000c\""),
+                ("[1, 2,]", "[1,2]"), ("[ 1 ,2 ]", "[1,2]"), ("[ ]", "[]"), ("[1,[2, 3],]", "[1,[2,3]]"),
+                ("{a b:1 c}", "{a,b:1,c}"), ("{a, b:1, c}", "{a,b:1,c}"), ("{a:M}", "{a}"), ("{ }", "{}"), ("{a:{b c:1}}", "{a:{b,c:1}}"), ("{a  b}", "{a b}"),
+                ("2021-06-01T12:00:00Z", "2021-06-01T12:00:00Z UTC"), ("2021-06-01T12:00:00+00:00 UTC", "2021-06-01T12:00:00Z UTC"), ("2021-06-01T12:00:00.000Z", "2021-06-01T12:00:00Z UTC"),
+                ("2021-06-01T12:00:00.50-04:00 New_York", "2021-06-01T12:00:00.5-04:00 New_York"), ("12:00:00.000", "12:00:00"), ("12:00:00.50", "12:00:00.5"),
+                ("C(1.50,-2.0)", "C(1.5,-2)"), ("C(01,2)", "C(1,2)"),
+                ("ver:\"3.0\"\r\na\r\n1\r\n", "ver:\"3.0\"\na\n1\n"), ("ver:\"3.0\"\na\n1\r\n", "ver:\"3.0\"\na\n1\n"), ("ver:\"3.0\"\r\nempty\r\n", "ver:\"3.0\"\nempty\n"),
+                ("ver:\"3.0\"\na\n1\n\n", "ver:\"3.0\"\na\n1\n"), ("ver:\"3.0\" x  y:1\na  z,b\n1,2\n", "ver:\"3.0\" x y:1\na z,b\n1,2\n"),
+                ("ver:\"3.0\"\na\n<<\r\nver:\"3.0\"\r\nb\r\n2\r\n>>\n", "ver:\"3.0\"\na\n<<\nver:\"3.0\"\nb\n2\n>>\n"), ("[<<\nver:\"3.0\"\nb\n2\n\n>>]", "[<<\nver:\"3.0\"\nb\n2\n>>]"),
+            ];
+            for (alt, plain) in pairs {
+                let a = from_str(alt); let b = from_str(plain);
+                let same = matches!((&a, &b), (Ok(x), Ok(y)) if format!("{:?}", norm(x)) == format!("{:?}", norm(y)));
+                if !same {
+                    println!("RESULT enum:zinc-spellings spelling={alt:?} decodes to {a:?}; the plain spelling {plain:?} decodes to {b:?}");
+                    std::process::exit(3);
+                }
+            }
+            println!("RESULT enum:zinc-spellings {} alternative spellings decode to the value of the plain spelling", pairs.len());
+        }
         // ---- C09 enumerator (evaluation half): `id *== @ref` over resolvers whose refs form chains and cycles of several shapes must
         //      terminate with the right answer; a run that does not come back is reported as a hang by the caller's watchdog
         "enum:wildcard-cycles" => {
@@ -690,7 +837,9 @@ fn main() {
             let r3 = Dict::new();
             let mut r4 = Dict::new(); r4.insert("a".into(), Value::Null); r4.insert("b".into(), Value::make_int(5));
             let mut r5 = Dict::new(); r5.insert("a".into(), Value::make_list(vec![Value::make_int(7), Value::make_int(1)])); r5.insert("x".into(), Value::Marker);
-            let recs = [r1, r2, r3, r4, r5];
+            // NaN stands in no ordering relation to any literal and is unequal to every literal
+            let mut r6 = Dict::new(); r6.insert("a".into(), Value::make_number(f64::NAN)); r6.insert("b".into(), Value::make_list(vec![Value::make_number(f64::NAN), Value::make_int(1)]));
+            let recs = [r1, r2, r3, r4, r5, r6];
             let paths: [&[&str]; 5] = [&["a"], &["b"], &["a", "b"], &["a", "m"], &["a", "b", "c"]];
             let num = |v: Option<&Value>, f: &dyn Fn(f64) -> bool| -> bool { match v {
                 Some(Value::Number(n)) => f(n.value),
@@ -706,6 +855,13 @@ fn main() {
                     (format!("{pt} == 1"), num(v, &|x| x == 1.0)),
                     (format!("{pt} < 2"), num(v, &|x| x < 2.0)),
                     (format!("{pt} >= 2"), num(v, &|x| x >= 2.0)),
+                    (format!("{pt} > 0"), num(v, &|x| x > 0.0)),
+                    (format!("{pt} <= 2"), num(v, &|x| x <= 2.0)),
+                    (format!("{pt} != 1"), match v {
+                        Some(Value::List(l)) => l.iter().any(|e| !matches!(e, Value::Number(n) if n.value == 1.0 && n.unit.is_none())),
+                        Some(Value::Number(n)) => !(n.value == 1.0 && n.unit.is_none()),
+                        Some(_) => true,
+                        None => false }),
                     (format!("{pt} and x"), v.is_some() && walk(rec, &["x"]).is_some()),
                     (format!("{pt} or x"), v.is_some() || walk(rec, &["x"]).is_some()),
                     (format!("not {pt} and not x or b"), (v.is_none() && walk(rec, &["x"]).is_none()) || walk(rec, &["b"]).is_some()),
